@@ -118,6 +118,8 @@ def C12_2(ctx, facts):
         r1 = f.roots(c.args[1])
         ctx.check(any(r.kind == "call" and "project" in norm(r.site.name) for r in r1) or any(r.kind == "arg" for r in r1), "TlsConnectionFuture::poll|domain-from-state",
                   "the domain is the one stored in the future's state", "domain roots %s" % sorted(map(repr, sig(r1))), c.where())
+        ch = _transformed(f, c.args[1])
+        ctx.check(not ch, "TlsConnectionFuture::poll|domain-unchanged", "the stored domain reaches .tls(..) as stored", "the stored domain is transformed (through %s) before the TLS stream is built" % (ch,), c.where())
     # no fallback: no other way to produce Ok / no ClientStream::new result returned directly
     news = f.calls("client::conn::stream::Stream::new")
     for c in news:
@@ -252,6 +254,15 @@ def C12_3(ctx, facts):
         foreign = [r for r in rr if r.kind == "const" and str(r.desc).startswith('"') and "should be valid" not in str(r.desc)]
         ctx.check(ok and not foreign, "TlsStream::new|server-name-from-domain", "the rustls ServerName is ServerName::try_from(domain) of the given domain",
                   "server name roots %s" % sorted(map(repr, sig(rr))), c.where())
+        # ... of the domain *as given*: nothing but representation changes (&str -> String -> &str ...) between the parameter
+        # and the conversion - the transport validated and handed over exactly the URI's host (C12.3), a second "normalisation"
+        # here (cutting at ':' as if it were an authority, trimming, ...) offers / checks another name or makes the expect fire
+        for tf in [r.site for r in rr if r.kind == "call" and r.site.matches(r"TryFrom.*try_from$")]:
+            ra = new.roots(tf.args[0])
+            changed = _transformed(new, tf.args[0])
+            ctx.check(not changed and any(r.kind == "arg" and r.desc == "domain" for r in ra), "TlsStream::new|domain-unchanged",
+                      "the string converted into the ServerName is the domain parameter itself (representation changes only)",
+                      "the domain is transformed before it becomes the server name (through %s): the name offered and verified is no longer the host the transport validated" % (changed,), tf.where())
         rs = new.roots(c.args[2])
         ctx.check(any(r.kind == "arg" and r.desc == "stream" for r in rs), "TlsStream::new|wraps-stream", "the TLS connector wraps the given stream", "stream roots differ", c.where())
         rc = new.roots(c.args[0])
@@ -261,7 +272,20 @@ def C12_3(ctx, facts):
     for c in tn:
         ok = any(r.kind == "arg" and r.desc == "domain" for r in tls.roots(c.args[1])) and any(r.kind == "arg" and r.desc == "config" for r in tls.roots(c.args[2]))
         ctx.check(ok, "Stream::tls|passes-domain", "Stream::tls passes its domain and configuration on", "Stream::tls passes other values", c.where())
+        ch = _transformed(tls, c.args[1])
+        ctx.check(not ch, "Stream::tls|domain-unchanged", "Stream::tls passes the domain on as given", "Stream::tls transforms the domain (through %s) before the TLS stream is built" % (ch,), c.where())
     ctx.floor("Stream::tls|new", len(tn), 1, "TlsStream::new in Stream::tls")
+
+
+IDENT = r"(ToOwned.*::to_owned|ToString.*::to_string|String.*::from|From<.*str>.*::from|Into.*::into|AsRef.*::as_ref|Borrow.*::borrow|Deref(Mut)?.*::deref(_mut)?|Clone.*::clone|String::as_str|String::as_mut_str|str::as_ref|into_boxed_str|Box.*::from|::project|Pin.*::(as_mut|get_mut|new|new_unchecked|as_ref|get_ref|into_inner)|mem::take|mem::replace|Option.*::(take|unwrap|expect|as_ref|as_mut|as_deref))$"
+
+
+def _transformed(unit, operand):
+    """Calls other than representation changes / accessors, and string literals, in the backward slice of a name."""
+    ra = unit.roots(operand)
+    changed = sorted({norm(r.site.name) for r in ra if r.kind == "call" and not re.search(IDENT, norm(r.site.name))})
+    lits = sorted({str(r.desc) for r in ra if r.kind == "const" and str(r.desc).startswith('"')})
+    return changed[:4] + lits[:3]
 
 
 def C12_4(ctx, facts):
